@@ -339,10 +339,7 @@ Proof.
   - (* primitive *) cbn [exec sem]. apply exec_prim_refines. assumption.
   - (* struct *)
     cbn [exec sem].
-    set (wrap := match m with
-                 | Parse => fun (y : string) e => mk_err_issue y "struct" (uerr_text e)
-                 | Validate => fun (y : string) e => mk_unknown_issue y "struct" e
-                 end).
+    set (wrap := fun (y : string) (e : uerr) => mk_unknown_issue y "struct" e).
     assert (B : forall pv,
       computes (let '(_, dfs, x1) := fields_loop (exec m) m pv fs fl0 (dstruct_fields d) x in
                 let d1 := DStruct dfs in
